@@ -193,6 +193,30 @@ example : views [.acq .hp .R, .rel .hp, .mark .dbread] = 2 := by decide
 example : views [.mark .dbread, .mark .dbread] = 2 := by decide
 example : views [.acq .orph .R, .rel .orph] = 0 := by decide
 
+/-- The 58 ops of the pairwise matrix (harness run `matrix`: every unordered pair of them, 1711
+pairs, run against each other on one real Chain) are entries of the regenerated table; by
+`chain_ops_deadlock_free` (two threads, each running one of them any number of times) the model has
+no deadlock for any of these pairs, and the real code returned for every pair. -/
+theorem table_matrix_ops_present :
+    ∀ n ∈ ["invalidate_header", "reset_chain_head", "reset_prune_lists", "reset_pibd_head",
+           "process_block", "is_known", "process_block_header", "sync_block_headers", "is_orphan",
+           "orphans_evicted_len", "get_unspent", "get_unspent_output_at", "validate_tx",
+           "validate_inputs", "verify_coinbase_maturity", "verify_tx_lock_height", "validate",
+           "set_prev_root_only", "set_txhashset_roots", "get_merkle_proof",
+           "get_merkle_proof_for_pos", "txhashset_read", "segmenter", "desegmenter",
+           "txhashset_archive_header", "txhashset_archive_header_header_only", "fork_point",
+           "check_txhashset_needed", "compact", "get_last_n_output", "get_last_n_rangeproof",
+           "get_last_n_kernel", "get_output_pos", "unspent_outputs_by_pmmr_index",
+           "block_height_range_to_pmmr_indices", "orphans_len", "head", "tail", "header_head",
+           "head_header", "get_block", "get_tail", "get_block_header", "get_previous_header",
+           "get_block_sums", "get_header_by_height", "get_header_for_output", "get_kernel_height",
+           "get_header_for_kernel_index", "get_locator_hashes", "difficulty_iter", "block_exists",
+           "Segmenter::kernel_segment", "Segmenter::bitmap_segment", "Segmenter::output_segment",
+           "Segmenter::rangeproof_segment", "Desegmenter::next_desired_segments",
+           "Desegmenter::check_progress"],
+      (lockTable.lookup n).isSome = true := by
+  decide +kernel
+
 /-- the table is not empty / not all lock-free (the translator found the locks) -/
 example : (lockTable.filter (fun e => !isLockFree e.2)).length ≥ 30 := by decide +kernel
 
